@@ -110,12 +110,18 @@ func H02aT() { h02a(2, 1) }
 // StartLine/EndLine are the lines of the span's first and last word.
 func h02a(edits int, world int) {
 	t := []float64{0.5, 0.7, 0.8}[vxChoice(3)]
-	docs := [][][]int{{{0}, {1}, {2}, {3}}, {{0, 1}, {2, 3}, {1, 4}, {7}, {0, 7}}}[world]
+	docs := [][][]int{{{0}, {1}, {2}, {3}}, {{0, 1}, {2, 3}, {7}}}[world]
 	ds := docs[vxChoice(len(docs))]
 	c := vxBuildWorld(t, ds...)
 	K0 := vxFamily[ds[vxChoice(len(ds))]]
 	words := vxNoisyCopy(K0, []string{"a", "b", "h"}, edits)
-	all, brk := vxEmbed(words, vxChoice(3), vxChoice(3), vxChoice(5))
+	var all []string
+	var brk []bool
+	if edits > 1 {
+		all, brk = vxEmbed(words, vxChoice(2), vxChoice(2), []int{0, 2}[vxChoice(2)])
+	} else {
+		all, brk = vxEmbed(words, vxChoice(3), vxChoice(3), vxChoice(5))
+	}
 	in := vxText(all, brk)
 	r := c.Match(in)
 	if len(r.Matches) > 0 {
